@@ -1289,8 +1289,9 @@ func (client *client) disconnectHandler(dis *packets.Disconnect) *codes.Error {
 	}
 	client.disconnect = dis
 	// 不发送will message
-	// A v5 client can ask for its will to be published with reason code 0x04 (Disconnect with Will Message).
-	if !(client.version == packets.Version5 && dis.Code == codes.DisconnectWithWillMessage) {
+	// Only a normal disconnection (reason code 0x00; v3 has no reason code) removes the will [MQTT-3.1.2-10]:
+	// with 0x04 (Disconnect with Will Message) or an error reason code the will is still published.
+	if client.version != packets.Version5 || dis.Code == codes.NormalDisconnection {
 		client.cleanWillFlag = true
 	}
 	return nil
